@@ -2,6 +2,8 @@
 C02 — verification verdicts equal the documented meaning of each constraint.
 Property theorems only; proofs in TddaVerif/Lemmas/Verify.lean.
 -/
+import TddaVerif.Model.Report
+import TddaVerif.Lemmas.Report
 import TddaVerif.Model.Constraints
 import TddaVerif.Props.C02Spec
 import TddaVerif.Lemmas.Verify
@@ -71,5 +73,24 @@ example : verifyOn { epsilon := 1/2, strict := false, rx := fun _ _ => false }
 example : verifyOn { epsilon := 1/2, strict := false, rx := fun _ _ => false }
     { name := ['a'], ftype := .real, cells := [some (.r (-8)), some (.r 4), none] } false
     (.max (some (.r 2)) .fuzzy) = false := by decide +kernel
+
+/-! ### the printed report (Verification.__str__, tcn): each constraint is *reported* as satisfied exactly when its verdict says so -/
+open TddaVerif.Report in
+/-- the mark printed for a constraint determines its verdict (satisfied / failed / no verifier), for any mark set whose
+    three texts differ -/
+theorem mark_determines_verdict (m : MarkSet) (hd : ReportLemmas.Distinct m) (a b : Option Bool)
+    (h : m.text (tcn a) = m.text (tcn b)) : a = b := ReportLemmas.mark_determines_verdict m hd a b h
+
+open TddaVerif.Report in
+/-- report mode `all` shows every field; `fields` and `records` exactly the fields with failures -/
+theorem report_shows (fs : List Field) (f : Field) :
+    shown .all fs = fs ∧ (f ∈ shown .fields fs ↔ f ∈ fs ∧ f.failures > 0) ∧ shown .records fs = shown .fields fs :=
+  ⟨ReportLemmas.shown_all fs, ReportLemmas.mem_shown_fields fs f, ReportLemmas.shown_records fs⟩
+
+/-- **Tie**: the two mark sets in the source today (Generated/Report.lean is rewritten from base.py on every run) have
+    pairwise different texts, so `mark_determines_verdict` applies to both -/
+theorem tie_marks_distinct :
+    ReportLemmas.Distinct (ReportLemmas.markSetOf TddaVerif.Generated.Report.marks) ∧
+    ReportLemmas.Distinct (ReportLemmas.markSetOf TddaVerif.Generated.Report.safeMarks) := ReportLemmas.tie_marks_distinct
 
 end TddaVerif.Props.C02
